@@ -33,11 +33,16 @@ CONSTANTS Conns,       \* universe of connection ids (1..NMax)
           MCLats,      \* latencies (us) offered by Next
           MCSteps,     \* time advances (ms) offered by Next
           RunLen,      \* length of the runs in UnhealthyBound / Recover
+          MCSplit,     \* Next also offers completions split into begin / end (possibly out of time order)
           FailB        \* a backend whose calls all fail is unhealthy after this many completions (>= 1 ms apart)
 
 VARIABLES ready,       \* the picker's ready connections (fixed after Init; a variable so that traces can vary it)
           now,         \* ms
           infl, picks, dones,   \* [Conns -> Nat]
+          half,        \* [Conns -> Nat] completions that have begun (in-flight decremented, time read) but
+                       \* whose score/estimate update is still to come: with concurrent callers the
+                       \* updates of one connection may be applied out of the order of the times they read
+          ended,       \* [Conns -> Nat] completions whose update has been applied
           succ,        \* [Conns -> 0..1000]
           lag,         \* [Conns -> Nat] latency estimate, us (0 = none yet)
           lmin, lmax,  \* [Conns -> Nat] smallest / largest latency observed (meaningful once dones > 0)
@@ -49,8 +54,8 @@ VARIABLES ready,       \* the picker's ready connections (fixed after Init; a va
                        \* elapsed time and are not counted)
           out
 
-vars == <<ready, now, infl, picks, dones, succ, lag, lmin, lmax, lastPick, lastDone, prevPick, badrun, goodrun, failrun, out>>
-core == <<ready, now, infl, picks, dones, succ, lag, lmin, lmax, lastPick, lastDone, prevPick, badrun, goodrun, failrun>>
+vars == <<ready, now, infl, picks, dones, succ, lag, lmin, lmax, lastPick, lastDone, prevPick, badrun, goodrun, failrun, half, ended, out>>
+core == <<ready, now, infl, picks, dones, succ, lag, lmin, lmax, lastPick, lastDone, prevPick, badrun, goodrun, failrun, half, ended>>
 
 InitSuccess == 1000
 Throttle    == 500      \* healthy <=> succ > Throttle
@@ -87,7 +92,9 @@ SuccFails(old, new, acc, td) ==
 \* latency of this completion)
 LagFails(new, lo, hi) == IF new >= lo - 1 /\ new <= hi + 1 THEN {} ELSE {"lag-range"}
 
-Td(c, t) == IF lastDone[c] < 0 THEN 100000 ELSE t - lastDone[c]
+\* time since the previous completion of the connection as this completion sees it; a completion
+\* that read its time before the previous one did sees no elapsed time (w = 1: nothing moves)
+Td(c, t) == IF lastDone[c] < 0 THEN 100000 ELSE Max2(0, t - lastDone[c])
 
 \* "a backend whose calls all fail becomes unhealthy after a bounded number of completions": the
 \* number of unacceptable completions (each at least 1 ms after the previous completion, none
@@ -108,27 +115,39 @@ PickFails(c, t) ==
   \cup (IF t >= now THEN {} ELSE {"time"})
   \cup (IF c \in ready /\ ~StarveOK(c, t) THEN {"starved-2conn"} ELSE {})
 
-DoneFails(c, code, lat, t, s2, l2) ==
+\* split = FALSE: the whole completion as one step at time t >= now; split = TRUE: the update of a
+\* completion that began earlier and read time t then (t may lie before `now`)
+DoneFails(c, code, lat, t, s2, l2, split) ==
   IF c \notin ready THEN {"done-not-ready"}
-  ELSE (IF infl[c] > 0 THEN {} ELSE {"inflight"})
-       \cup (IF t >= now /\ lat >= 0 THEN {} ELSE {"time"})
+  ELSE (IF (~split /\ infl[c] > 0) \/ (split /\ half[c] > 0) THEN {} ELSE {"inflight"})
+       \cup (IF (split \/ t >= now) /\ t >= 0 /\ lat >= 0 THEN {} ELSE {"time"})
        \cup SuccFails(succ[c], s2, Acceptable(code), Td(c, t))
        \cup FailFails(c, Acceptable(code), t, s2)
-       \cup LagFails(l2, IF dones[c] = 0 THEN lat ELSE Min2(lmin[c], lat), IF dones[c] = 0 THEN lat ELSE Max2(lmax[c], lat))
+       \cup LagFails(l2, IF ended[c] = 0 THEN lat ELSE Min2(lmin[c], lat), IF ended[c] = 0 THEN lat ELSE Max2(lmax[c], lat))
 
 \* post-states as records (one definition for the actions and for trace conformance)
 PickPost(c, t) ==
   [infl |-> [infl EXCEPT ![c] = @ + 1], picks |-> [picks EXCEPT ![c] = @ + 1],
    lastPick |-> [lastPick EXCEPT ![c] = t]]
 
-DonePost(c, code, lat, t, s2, l2) ==
+BeginFails(c, t) ==
+  IF c \notin ready THEN {"done-not-ready"}
+  ELSE (IF infl[c] > 0 THEN {} ELSE {"inflight"}) \cup (IF t >= now THEN {} ELSE {"time"})
+
+BeginPost(c) ==
+  [infl |-> [infl EXCEPT ![c] = @ - 1], dones |-> [dones EXCEPT ![c] = @ + 1], half |-> [half EXCEPT ![c] = @ + 1]]
+
+DonePost(c, code, lat, t, s2, l2, split) ==
   LET acc  == Acceptable(code)
       far  == Td(c, t) >= 1000
   IN
-  [infl |-> [infl EXCEPT ![c] = @ - 1], dones |-> [dones EXCEPT ![c] = @ + 1],
+  [infl |-> IF split THEN infl ELSE [infl EXCEPT ![c] = @ - 1],
+   dones |-> IF split THEN dones ELSE [dones EXCEPT ![c] = @ + 1],
+   half |-> IF split THEN [half EXCEPT ![c] = @ - 1] ELSE half,
+   ended |-> [ended EXCEPT ![c] = @ + 1],
    succ |-> [succ EXCEPT ![c] = s2], lag |-> [lag EXCEPT ![c] = l2],
-   lmin |-> [lmin EXCEPT ![c] = IF dones[c] = 0 THEN lat ELSE Min2(@, lat)],
-   lmax |-> [lmax EXCEPT ![c] = IF dones[c] = 0 THEN lat ELSE Max2(@, lat)],
+   lmin |-> [lmin EXCEPT ![c] = IF ended[c] = 0 THEN lat ELSE Min2(@, lat)],
+   lmax |-> [lmax EXCEPT ![c] = IF ended[c] = 0 THEN lat ELSE Max2(@, lat)],
    lastDone |-> [lastDone EXCEPT ![c] = t],
    badrun  |-> [badrun  EXCEPT ![c] = IF ~acc /\ far THEN Min2(@ + 1, RunLen) ELSE 0],
    goodrun |-> [goodrun EXCEPT ![c] = IF acc /\ far THEN Min2(@ + 1, RunLen) ELSE 0],
@@ -144,7 +163,7 @@ InitWith(r) ==
   /\ lag = Zero /\ lmin = Zero /\ lmax = Zero
   /\ lastPick = [c \in Conns |-> -1] /\ lastDone = [c \in Conns |-> -1]
   /\ prevPick = -1
-  /\ badrun = Zero /\ goodrun = Zero /\ failrun = Zero
+  /\ badrun = Zero /\ goodrun = Zero /\ failrun = Zero /\ half = Zero /\ ended = Zero
   /\ out = [op |-> "init"]
 
 Init == InitWith(MCReady)
@@ -154,18 +173,29 @@ Pick(c, t) ==
   /\ LET p == PickPost(c, t) IN
        /\ infl' = p.infl /\ picks' = p.picks /\ lastPick' = p.lastPick
   /\ now' = t /\ prevPick' = t
-  /\ UNCHANGED <<ready, dones, succ, lag, lmin, lmax, lastDone, badrun, goodrun, failrun>>
+  /\ UNCHANGED <<ready, dones, succ, lag, lmin, lmax, lastDone, badrun, goodrun, failrun, half, ended>>
   /\ out' = [op |-> "pick", c |-> c, t |-> t]
 
-Done(c, code, lat, t, s2, l2) ==
-  /\ DoneFails(c, code, lat, t, s2, l2) = {}
-  /\ LET p == DonePost(c, code, lat, t, s2, l2) IN
+DoneStep(c, code, lat, t, s2, l2, split) ==
+  /\ DoneFails(c, code, lat, t, s2, l2, split) = {}
+  /\ LET p == DonePost(c, code, lat, t, s2, l2, split) IN
        /\ infl' = p.infl /\ dones' = p.dones /\ succ' = p.succ /\ lag' = p.lag
        /\ lmin' = p.lmin /\ lmax' = p.lmax /\ lastDone' = p.lastDone
        /\ badrun' = p.badrun /\ goodrun' = p.goodrun /\ failrun' = p.failrun
-  /\ now' = t
+       /\ half' = p.half /\ ended' = p.ended
+  /\ now' = Max2(now, t)
   /\ UNCHANGED <<ready, picks, lastPick, prevPick>>
-  /\ out' = [op |-> "done", c |-> c, code |-> code, lat |-> lat, t |-> t, succ |-> s2, lag |-> l2]
+  /\ out' = [op |-> IF split THEN "dend" ELSE "done", c |-> c, code |-> code, lat |-> lat, t |-> t, succ |-> s2, lag |-> l2]
+
+Done(c, code, lat, t, s2, l2)    == DoneStep(c, code, lat, t, s2, l2, FALSE)
+DoneEnd(c, code, lat, t, s2, l2) == DoneStep(c, code, lat, t, s2, l2, TRUE)
+
+DoneBegin(c, t) ==
+  /\ BeginFails(c, t) = {}
+  /\ LET p == BeginPost(c) IN infl' = p.infl /\ dones' = p.dones /\ half' = p.half
+  /\ now' = t
+  /\ UNCHANGED <<ready, picks, lastPick, prevPick, succ, lag, lmin, lmax, lastDone, badrun, goodrun, failrun, ended>>
+  /\ out' = [op |-> "dbegin", c |-> c, t |-> t]
 
 (* ---------------------------------------------------------------- model checking *)
 
@@ -183,6 +213,10 @@ Next ==
     \/ \E c \in ready, code \in MCCodes, lat \in MCLats :
          \E s2 \in SuccCand(succ[c], Acceptable(code), Td(c, now + d)), l2 \in LagCand(lag[c], lat) :
             Done(c, code, lat, now + d, s2, l2)
+    \/ MCSplit /\ \E c \in ready : DoneBegin(c, now + d)
+    \/ MCSplit /\ \E c \in ready, code \in MCCodes, lat \in MCLats, t \in {now, Max2(0, now - d), Max2(0, now - 2 * d)} :
+         \E s2 \in SuccCand(succ[c], Acceptable(code), Td(c, t)), l2 \in LagCand(lag[c], lat) :
+            DoneEnd(c, code, lat, t, s2, l2)
 
 Spec == Init /\ [][Next]_vars
 
@@ -192,9 +226,9 @@ TypeOK ==
   /\ ready \subseteq Conns /\ now \in Nat
   /\ \A c \in Conns : infl[c] \in Nat /\ picks[c] \in Nat /\ dones[c] \in Nat /\ lag[c] \in Nat
 
-InflEq    == \A c \in Conns : infl[c] = picks[c] - dones[c] /\ infl[c] >= 0
+InflEq    == \A c \in Conns : infl[c] = picks[c] - dones[c] /\ infl[c] >= 0 /\ half[c] = dones[c] - ended[c] /\ half[c] >= 0
 SuccRange == \A c \in Conns : succ[c] \in 0..1000
-LagRange  == \A c \in Conns : IF dones[c] = 0 THEN lag[c] = 0 ELSE lag[c] >= lmin[c] - 1 /\ lag[c] <= lmax[c] + 1
+LagRange  == \A c \in Conns : IF ended[c] = 0 THEN lag[c] = 0 ELSE lag[c] >= lmin[c] - 1 /\ lag[c] <= lmax[c] + 1
 OnlyReady == \A c \in Conns \ ready : picks[c] = 0 /\ dones[c] = 0
 
 \* a backend whose calls all fail becomes unhealthy after a bounded number of completions (spaced
